@@ -179,9 +179,6 @@ func TestWorker(t *testing.T) {
 		job.MaxViol = 6
 	}
 	shrinkEnd := time.Now().Add(time.Duration(job.BudgetS+job.ShrinkS) * time.Second)
-	if job.BudgetS > 0 {
-		deadline = deadline // runs stop at the budget; shrinking may use ShrinkS beyond it
-	}
 	for i := 0; i < job.SeedCount; i++ {
 		if job.BudgetS > 0 && time.Now().After(deadline) {
 			break
